@@ -168,7 +168,7 @@ PROPS["C17"] = dict(
 
 PROPS["C04"] = dict(
     units=[("verus", "symtab"), ("verus", "vmcore"), ("verus", "cgen")],
-    explanation="Compiler (cgen unit, real bodies; the table's answers are uninterpreted functions of table, name and depth): compile_identifier asks resolve() for the name at the current block depth, turns 'no binding' into a compile error, and reads / writes a found symbol through the instruction of the symbol's own scope with the symbol's own index (load_symbol / save_symbol: Global/Local/Free/BuiltinFn/BuiltinVar/Function -> their Get / Set opcodes; a non-assignable scope is an error); a let / fn statement defines the name at the current block depth BEFORE its value is compiled and ends in DefineGlobal / DefineLocal of exactly that symbol; the last thing a block does to the table is leave_block at the depth it was entered with, and it restores that depth. SymbolTable::define/define_free/leave_block/resolve/new_enclosed are verified against an abstract store view: define appends the most "
+    explanation="Compiler (cgen unit, real bodies; the table's answers are uninterpreted functions of table, name and depth): compile_identifier asks resolve() for the name at the current block depth, turns 'no binding' into a compile error, and reads / writes a found symbol through the instruction of the symbol's own scope with the symbol's own index (load_symbol / save_symbol: Global/Local/Free/BuiltinFn/BuiltinVar/Function -> their Get / Set opcodes; a non-assignable scope is an error); a let / fn statement defines the name at the current block depth BEFORE its value is compiled and ends in DefineGlobal / DefineLocal of exactly that symbol; the last thing a block does to the table is leave_block at the depth it was entered with, and it restores that depth; a function literal leaves, in the enclosing scope, one load per captured symbol (through the symbol's own scope and index, in sequence) followed by Closure(function constant, number of captures) - what OpClosure (vmcore push_closure) copies into the closure (closure_shape). SymbolTable::define/define_free/leave_block/resolve/new_enclosed are verified against an abstract store view: define appends the most "
                 "recent symbol of its name (Global iff there is no enclosing table), resolve returns the LAST symbol visible at the block depth "
                 "(captured symbols are visible in the whole function), falls through to the enclosing function otherwise and captures non-shared "
                 "symbols with index = number of captures so far, returns None exactly when no table of the chain has a visible symbol, and leaves "
@@ -177,7 +177,7 @@ PROPS["C04"] = dict(
                 "(lemma_inner_binding_ends, lemma_filter_all_kept). VM side: the Closure arm / push_closure copy exactly the num_free top stack slots, in order, into the new closure at creation time; "
                 "GetFree reads closure.free[operand]; DefineGlobal/SetGlobal/GetGlobal read and write exactly globals[operand] (shared by reference); Get/Set/DefineLocal address stack[bp + operand].",
     not_covered=["that the symbol-table answers named in the cgen contracts (defined_sym / resolved_sym / after_leave, uninterpreted there) are the abstract-store operations verified in the symtab unit: matched by name, the two units share no spec",
-                 "that compile_function_literal emits the free-symbol loads in free_symbols order and defines the parameters at depth 0 of the new table (the calls are verified panic-free and frame-preserving, their order is not a postcondition)"],
+                 "that the sequence of captured symbols in closure_shape is the inner table's free_symbols (it is an existential in the postcondition), and that compile_function_literal defines the parameters at depth 0 of the new table (the calls are verified panic-free and frame-preserving)"],
     assumptions=["std HashMap<String, Vec<_>>: get / insert / entry().or_default().push() / values_mut()+retain have their documented meaning over the abstract view (5 shims)",
                  "fewer than 2^64 definitions / captures per table"],
     trusted=COMMON_TRUST,
